@@ -7,6 +7,25 @@ Import ListNotations.
 Open Scope N_scope.
 
 Definition ascii_lower (c : N) : N := if (65 <=? c) && (c <=? 90) then c + 32 else c.
+(* str::to_lowercase on the UTF-8 bytes, as far as it can matter here: ASCII letters are lowered, and the only two
+   non-ASCII characters whose lowercase form contains an ASCII byte are U+212A KELVIN SIGN (e2 84 aa -> "k") and
+   U+0130 (c4 b0 -> "i" cc 87).  Every other non-ASCII character lowercases to non-ASCII bytes, which the DID parser
+   rejects either way, so those bytes are kept as they are. *)
+Fixpoint to_lower (l : list N) : list N :=
+  match l with
+  | [] => []
+  | c :: r =>
+      match r with
+      | a :: r1 =>
+          if (c =? 196) && (a =? 176) then 105 :: 204 :: 135 :: to_lower r1
+          else match r1 with
+               | b :: r2 => if (c =? 226) && (a =? 132) && (b =? 170) then 107 :: to_lower r2 else ascii_lower c :: to_lower r
+               | [] => ascii_lower c :: to_lower r
+               end
+      | [] => [ascii_lower c]
+      end
+  end.
+
 Definition IOTA : list N := [105; 111; 116; 97].           (* "iota" *)
 Definition DID_IOTA_PREFIX : list N := [100; 105; 100; 58; 105; 111; 116; 97; 58].   (* "did:iota:" *)
 
@@ -37,7 +56,7 @@ Definition iota_normalize (mid : list N) : list N :=
   end.
 
 Definition iota_parse (s : list N) : outcome (list N) did_err :=
-  match core_did_parse (map ascii_lower s) with
+  match core_did_parse (to_lower s) with
   | Ok (m, i) =>
       if negb (list_eqb m IOTA) then Err EMethodName
       else let '(n, t) := denorm i in
